@@ -81,7 +81,26 @@ func (c *LimitParallelRequests) acquireEndpoint(ctx context.Context, endpointLim
 	})
 	select {
 	case <-ctx.Done():
-		c.releaseEndpoint(endpointLimitKey)
+		// A waiter that gives up owns no slot: it only leaves the queue. Releasing here would
+		// admit the first waiter next to the request that still holds the slot. Only if this
+		// request has been admitted meanwhile (it is no longer queued) the slot is given back.
+		admitted := false
+		_, _ = c.endpointQueues.ReplaceWithFunc(endpointLimitKey, func(oldValue *endpointQueue, oldLoaded bool) (newValue *endpointQueue, doDelete bool) {
+			if !oldLoaded {
+				return nil, true
+			}
+			for i, ch := range oldValue.orderedRequest {
+				if ch == reqChan {
+					oldValue.orderedRequest = append(oldValue.orderedRequest[:i], oldValue.orderedRequest[i+1:]...)
+					return oldValue, false
+				}
+			}
+			admitted = true
+			return oldValue, false
+		})
+		if admitted {
+			c.releaseEndpoint(endpointLimitKey)
+		}
 		return ctx.Err()
 	case <-reqChan:
 		return nil
